@@ -41,6 +41,12 @@ type NondetEntry struct {
 
 type Event struct{ Desc string }
 
+type writeRec struct {
+	store string
+	key   *Term
+	val   *BytesV // nil: delete
+}
+
 type CtxData struct {
 	Height, Time, Gas *Term
 	GasNil            bool
@@ -57,7 +63,7 @@ type World struct {
 	Params   map[string]Value // per subspace param set value (struct)
 	Ghost    map[string]Value
 	Writes   int
-	WriteLog []*Term // ordered store write log (for determinism checks)
+	WriteLog []writeRec // ordered store write log: keys and values (determinism checks)
 	SliceBound int
 	RandChoice bool
 	OpenStores map[string]bool
@@ -99,7 +105,7 @@ func (w *World) clone() *World {
 		n.Ghost[k] = v
 	}
 	n.EventLog = append([]*Term(nil), w.EventLog...)
-	n.WriteLog = append([]*Term(nil), w.WriteLog...)
+	n.WriteLog = append([]writeRec(nil), w.WriteLog...)
 	n.Evals = append([]NondetEntry(nil), w.Evals...)
 	n.OpenStores = make(map[string]bool, len(w.OpenStores))
 	for k, v := range w.OpenStores {
